@@ -1,7 +1,19 @@
 """Deterministic request-line generators for the gsv / gsvmodel line protocol (harness/PROTOCOL.md).
 
-Every generator takes a `random.Random` and a size `n` and is a pure function of the rng state.
-Only the stdlib and the independent codec /verif/harness/py/ber.py are used.
+Every generator takes a `random.Random` and a size `n` and is a pure function of the rng state
+(no global state, no hashing-order dependence).  Only the stdlib and the independent codec
+/verif/harness/py/ber.py are used.
+
+  gen_values(rng, n) -> list[bytes]      single SNMP values (BER), structurally valid, boundary biased
+  mutate(rng, data) -> bytes             one random mutation (8 kinds)
+  malformed(rng) -> bytes                hand-built grammar-malformed TLV shapes
+  gen_pdus(rng, n) -> list[bytes]        PDUs (responses / requests / reports / unknown tags)
+  lines_<stream>(rng, n) -> list[str]    request lines; the streams are listed in STREAMS
+  exhaustive_small(alphabet, max_len)    iterator over all byte strings, ALPHABET is the default alphabet
+  stats / stats_walk / format_stats      histograms request kind x response kind
+
+The decoder streams mix 40% valid / 40% mutated / 20% malformed inputs; `mutate_inner` mutates an
+inner element of an encoding tree and re-wraps it, so that the outer lengths stay consistent.
 """
 import itertools
 import re
@@ -839,7 +851,7 @@ def _topy_tree(rng, clean):
 
 
 def lines_topy(rng, n):
-    clean, anyv = _pools(rng)
+    clean, anyv = _pools(rng, 384)
     out = []
     for _ in range(n):
         r = rng.random()
@@ -869,11 +881,13 @@ _MAX_SIZES = (0, 484, 1472, 2048, 65507, 2 ** 31 - 1, -1, 2 ** 40)
 
 
 def _ver_tlv(rng, want):
+    if want == 0 and rng.random() < 0.03:
+        return b"\x02\x00"                       # zero-length INTEGER decodes as 0
     v = want if rng.random() < 0.88 else _pick(rng, VERSIONS)
     return int_tlv(v, 1 if rng.random() < 0.03 else 0)
 
 
-def _oct(b, rng=None):
+def _oct(b):
     return tlv(0x04, b)
 
 
@@ -963,7 +977,7 @@ def lines_msg(rng, n):
 # ---------------------------------------------------------------- 6. walks
 
 WALK_BASES = ("1.3.6", "1.3.6.1.2.1", "0.0", "2.39.4294967295", "1.3.6.128", "1.3.6.1.2.1.2.2.1.10", "1.3.6.1.16383",
-              "2.5", "1.3.6.1.2.1.1")
+              "2.5", "1.3.6.1.2.1.1", "1.3.6", "1.3.6.1.2.1", "+1.3.6", "01.3.06.1")
 WALK_BAD_BASES = ("1", "1.3.", "3.1", "1.40", "a.b", "", ".1.3.6", "1.3.6.4294967296", "1..3")
 _WALK_BASE_CONTENT = {t: oid_text_content(t) for t in WALK_BASES}
 _WALK_MAXREP = (0, 1, 10, 25, -1, I64_MAX, I64_MIN)
@@ -1227,10 +1241,6 @@ def _blob(rng, ln=None):
     if ln <= 32:
         return rng.randbytes(ln)
     return bytes((int(rng.random() * 256),)) * ln
-
-
-def _osz(b, empty_is_2=True):
-    return _sz(len(b))
 
 
 def lines_encmsg(rng, n):
